@@ -370,3 +370,18 @@ Qed.
 Example find_groups_closed_postfix_witness :
   find_groups_gen true 6 path_0523 = Some (1%nat, [1;0;1;1;0;1]%nat).
 Proof. vm_compute. reflexivity. Qed.
+
+(* the half of "groups = connected components" that holds for every matrix and
+   both variants of the scan: two objects with the same non-zero group id are
+   connected by a chain of minimal-distance edges (reflexive-symmetric-transitive
+   closure of VALUE(j,k) == min_distance) *)
+Theorem find_groups_connected :
+  forall fixg nb v ng ids,
+  find_groups_gen fixg nb v = Some (ng, ids) ->
+  forall a b, nth a ids O = nth b ids O -> nth a ids O <> O -> min_conn nb v (min_distance nb v) a b.
+Proof. exact find_groups_sound. Qed.
+Print Assumptions find_groups_connected.
+
+Example find_groups_connected_nonvacuous :
+  find_groups_gen false 4 [0;1;5;5; 1;0;5;5; 5;5;0;1; 5;5;1;0]%N = Some (2%nat, [1;1;2;2]%nat).
+Proof. vm_compute. reflexivity. Qed.
